@@ -37,8 +37,10 @@ def _mk_interp(f, linker):
 
     def opaque(e):
         name = e.get("name") or (e.get("callee") or "").rsplit("::", 1)[-1]
-        return name in ("prepare_simple_expr", "prepare_value", "prepare_select_statement", "prepare_table_ref", "push_param")
+        return name in ("prepare_simple_expr", "prepare_value", "prepare_select_statement", "prepare_table_ref", "push_param", "prepare_condition_where")
     it.opaque_call = opaque
+    # the escape code is decided per character elsewhere (C03 / C17): here its result is one opaque escaped text
+    it.builtins["crate::backend::EscapeBuilder::escape_string"] = lambda it_, a: "<escaped>"
     # dispatch of `self.method(..)` on the builder traits: resolve for this backend
     for tr in L.BUILDER_TRAITS:
         t = f.traits.get(tr)
@@ -46,7 +48,7 @@ def _mk_interp(f, linker):
             continue
         for item in t["items"]:
             decl = item["def"]
-            if item["name"] in ("prepare_simple_expr", "prepare_value", "prepare_select_statement", "prepare_table_ref"):
+            if item["name"] in ("prepare_simple_expr", "prepare_value", "prepare_select_statement", "prepare_table_ref", "escape_string", "prepare_condition_where"):
                 continue      # kept opaque: the table only needs a marker for what they write
             target = linker.resolve(decl)
             if target and target != decl:
